@@ -162,6 +162,14 @@ PPL::Grid::limited_congruence_extrapolation_assign(const Grid& y,
                                                    unsigned* tp) {
   Grid& x = *this;
 
+  if (&cgs == &x.con_sys || &cgs == &y.con_sys) {
+    // `cgs' is the congruence system of `x' or `y', which the computation
+    // below may simplify (shrinking it): work on a copy.
+    const Congruence_System cgs_copy(cgs);
+    x.limited_congruence_extrapolation_assign(y, cgs_copy, tp);
+    return;
+  }
+
   // Check dimension compatibility.
   if (x.space_dim != y.space_dim) {
     throw_dimension_incompatible("limited_extrapolation_assign(y, cgs)",
@@ -371,6 +379,14 @@ PPL::Grid::limited_generator_extrapolation_assign(const Grid& y,
                                                   unsigned* tp) {
   Grid& x = *this;
 
+  if (&cgs == &x.con_sys || &cgs == &y.con_sys) {
+    // `cgs' is the congruence system of `x' or `y', which the computation
+    // below may simplify (shrinking it): work on a copy.
+    const Congruence_System cgs_copy(cgs);
+    x.limited_generator_extrapolation_assign(y, cgs_copy, tp);
+    return;
+  }
+
   // Check dimension compatibility.
   if (x.space_dim != y.space_dim) {
     throw_dimension_incompatible("limited_extrapolation_assign(y, cgs)",
@@ -471,6 +487,14 @@ PPL::Grid::limited_extrapolation_assign(const Grid& y,
                                         const Congruence_System& cgs,
                                         unsigned* tp) {
   Grid& x = *this;
+
+  if (&cgs == &x.con_sys || &cgs == &y.con_sys) {
+    // `cgs' is the congruence system of `x' or `y', which the computation
+    // below may simplify (shrinking it): work on a copy.
+    const Congruence_System cgs_copy(cgs);
+    x.limited_extrapolation_assign(y, cgs_copy, tp);
+    return;
+  }
 
   // Check dimension compatibility.
   if (x.space_dim != y.space_dim) {
